@@ -142,7 +142,14 @@ func isOpaqueNamed(t types.Type) bool {
 
 func isSeqType(t types.Type) bool {
 	n, ok := t.(*types.Named)
-	return ok && n.Obj().Name() == "seq" && n.Obj().Pkg() != nil
+	return ok && (n.Obj().Name() == "seq" || n.Obj().Name() == "msnap") && n.Obj().Pkg() != nil
+}
+
+// MapSnap is a ghost snapshot of a map's content.
+type MapSnap struct {
+	Present *Term
+	Vals    []*Term
+	Map     *types.Map
 }
 
 // Leaves flattens a Go type into scalar components.
